@@ -377,11 +377,11 @@ example :
     rcases hm with ⟨rfl, rfl⟩ | ⟨rfl, rfl⟩ <;> rcases hm' with ⟨rfl, rfl⟩ | ⟨rfl, rfl⟩
     · rfl
     · exfalso
-      cases hu : o.uuid <;> simp [keysOf, hu, idValue, idMM, SNode.cls, SNode.slots, SNode.uuid] at hk hk'
+      cases hu : o.uuid <;> simp [keysOf, hu, idValue, idMM, SNode.cls, SNode.slots, SNode.uuid, veq] at hk hk'
       · subst hk; revert hk'; decide
       · rcases hk with rfl | rfl <;> revert hk' <;> decide
     · exfalso
-      cases hu : o.uuid <;> simp [keysOf, hu, idValue, idMM, SNode.cls, SNode.slots, SNode.uuid] at hk hk'
+      cases hu : o.uuid <;> simp [keysOf, hu, idValue, idMM, SNode.cls, SNode.slots, SNode.uuid, veq] at hk hk'
       · subst hk; revert hk'; decide
       · rcases hk with rfl | rfl <;> revert hk' <;> decide
     · rfl
